@@ -1,1 +1,41 @@
-From CG Require Import Spec.Sets.
+(* Props/C09.v — C09: a cached timeline is observationally identical to its source.
+   Statements only (Proofs/CacheInv.v, Proofs/CacheInv2.v).  The model is Model/Cache.v:
+   CachedTimeline as a state machine over histories of queries and clock advances. *)
+From CG Require Import Proofs.Defs Proofs.Merge Model.Cache Proofs.CacheInv Proofs.CacheInv2.
+
+(* For EVERY history of bounded queries and clock advances (any ttl > 0, any clock granularity
+   tick >= 0 — tick = 0 gives equal consecutive readings), from the empty cache, over ANY keyed
+   source with unique keys (overlapping, nested, touching segment edges, unbounded events):
+   the next query returns, after clipping to its window, exactly the source's events clipped to
+   the window — each event overlapping the window whole and once — in (start,end) order,
+   newest first when reversed. *)
+Theorem C09_observational : forall evs ttl tick t0 ops a b rv s' out log,
+  src_ok evs -> ttl > 0 -> tick >= 0 -> Forall static_op ops ->
+  NEG_INF < a -> a < b -> b < POS_INF ->
+  cquery false ttl tick (src_of evs 0) (r_state (crun_all false ttl tick t0 evs ops)) a b rv = (s', out, log) ->
+  Permutation (flat_map (clipW (Some a) (Some b)) out)
+              (flat_map (clipW (Some a) (Some b)) (filter pos_len evs)) /\
+  sorted_le (if rv then key_ge else key_le) out.
+Proof. exact CacheInv2.C09_observational. Qed.
+Print Assumptions C09_observational.
+
+(* ... hence every output of every history *)
+Theorem C09_all_outputs : forall evs ttl tick t0 ops,
+  src_ok evs -> ttl > 0 -> tick >= 0 -> Forall static_op ops ->
+  Forall2 (c09_result evs) (queries ops) (r_outs (crun_all false ttl tick t0 evs ops)).
+Proof. exact CacheInv2.C09_all_outputs. Qed.
+Print Assumptions C09_all_outputs.
+
+(* the invariant behind it, for every reachable state: the sink is sorted and holds, per source
+   event and per maximal run of cached segments, exactly one fragment (stitched across touching
+   segments, cut at expired ones); it determines the sink as a multiset *)
+Theorem C09_sink_invariant : forall evs ttl tick t0 ops,
+  src_ok evs -> ttl > 0 -> tick >= 0 -> Forall static_op ops ->
+  sink_inv evs (r_state (crun_all false ttl tick t0 evs ops)).
+Proof. exact sink_inv_reachable. Qed.
+Print Assumptions C09_sink_invariant.
+
+Theorem C09_sink_determined : forall evs sk sk' cv,
+  src_ok evs -> sink_sem evs noX sk cv -> sink_sem evs noX sk' cv -> Permutation sk sk'.
+Proof. exact sink_sem_unique. Qed.
+Print Assumptions C09_sink_determined.
